@@ -5,7 +5,7 @@ package main
 // Two case kinds:
 //
 //	L <src-hex>              result: "pos,line,col" of every token of parser.LexToList (space separated)
-//	E <P|R|X> <src-hex> <off> [<calloff>]
+//	E <P|R|X|A|Y> <src-hex> <off> [<calloff>]
 //	                         a program with a planted parse (P) / runtime (R) error, or a runtime error the
 //	                         program catches itself (X), whose offending token starts at byte offset <off>
 //	                         ("eof": the EOF token); result: see c18Err
@@ -104,6 +104,15 @@ func c18Err(kind, src, off, calloff string) string {
 			return fmt.Sprintf("OTHER %T", err)
 		}
 		return fmt.Sprintf("%d,%d %s", pe.Line, pe.Pos, c18Text(pe.Error()))
+	}
+	if kind == "A" || kind == "Y" {
+		// the code as it is answers without a position; a repaired tree answers like kinds R / X
+		k2 := map[string]string{"A": "R", "Y": "X"}[kind]
+		res := c18Err(k2, src, off, calloff)
+		if strings.HasPrefix(res, "OTHER *errors.errorString") || res == "<nil>,<nil>" {
+			return "unpositioned"
+		}
+		return res
 	}
 	if kind == "X" {
 		c18Rec = nil
@@ -241,6 +250,13 @@ var c18Plants = []c18Plant{
 	{"R", "a := -\"s\"", 6, false},
 	{"R", "a := [1, # c\n nosuch()]", 14, false},
 	{"R", "a := r\"x\ny\" + 1", 5, false},
+	// failed variable / container access and a failed import (kind A, caught in try: Y): bare errors
+	// without any position — known finding access-errors-unpositioned; the position asked for is that
+	// of the identifier / the import token (what fixes/C18-access-errors-positioned.patch would give)
+	{"A", "xs := [1, 2]; y := xs[5]", 19, false},
+	{"A", "un := 1; y := un.a", 14, false},
+	{"A", "un := 1\nun[0]", 8, false},
+	{"A", "import \"nofile\" as imp", 0, false},
 }
 
 // c18Plant1 puts a plant into random well-formed surroundings. Runtime plants come in four
@@ -254,6 +270,9 @@ func c18Plant1(g *Gen, pl c18Plant) string {
 	shape := 0
 	if pl.kind == "R" {
 		shape = g.R.Intn(4)
+	} else if pl.kind == "A" {
+		// not inside a called function: there the interpreter re-wraps a bare error at the CALL token
+		shape = 2 * g.R.Intn(2)
 	}
 	inFunc, inTry := shape == 1 || shape == 3, shape >= 2
 	if inFunc {
@@ -285,7 +304,7 @@ func c18Plant1(g *Gen, pl c18Plant) string {
 	}
 	kind := pl.kind
 	if inTry {
-		kind = "X"
+		kind = map[string]string{"R": "X", "A": "Y"}[pl.kind]
 	}
 	if !pl.last {
 		switch g.R.Intn(4) {
